@@ -279,6 +279,7 @@ package dag
 //@        || (did(call append #1) && len(arg(call append #1, 1)) == 1 && same(arg(call append #1, 1)[0], readyToRetry[$i-1]))
 //@   loop 2 invariant true
 //@   call (*notifier).notifyNow #1 requires [every-stored-event-is-offered-again] same(arg(1), readyToRetry[$i-1])
+//@   call (*notifier).notifyNow #1 requires [fatal-or-spent-events-are-not-offered-again] readyToRetry[$i-1].Retries < maxRetries
 //@   call (*notifier).retry #1 requires [failed-events-enter-the-retry-loop] same(arg(1), failedAtStartup[$i-1])
 
 // ---- C14: the notifier: an event leaves the store only when its receiver finished it ----
